@@ -7,44 +7,7 @@ import CRProofs.XsdDocE
 namespace CR.C03
 open CR.Xsd CR.XmlNum CR.XmlW
 
-def istr (i : Int) : String := String.ofList (intStr i)
-
 /-! ### references per object -/
-
-def posRefs : CR.XmlW.Pos → List Int
-  | .lanelets ids => ids
-  | _ => []
-
-def attrRefs : Attr → List Int
-  | .position q => posRefs q
-  | _ => []
-
-def stateRefs (st : List Attr) : List Int := st.flatMap attrRefs
-
-def stopRefs (s : StopLineD) : List Int := s.signs ++ s.lights
-
-def optId : Option (Int × Bool) → List Int
-  | some (i, _) => [i]
-  | none => []
-
-def laneletRefs (l : LaneletD) : List Int :=
-  l.pred ++ l.succ ++ optId l.adjL ++ optId l.adjR ++ (match l.stop with | some s => stopRefs s | none => []) ++ l.signs ++ l.lights
-
-def incomingRefs (i : IncomingD) : List Int :=
-  i.lanelets ++ i.right ++ i.straight ++ i.left ++ (match i.leftOf with | some j => [j] | none => [])
-
-def intersectionRefs (x : IntersectionD) : List Int := x.incomings.flatMap incomingRefs ++ x.crossings
-
-def predRefs : Prediction → List Int
-  | .traj sts => sts.flatMap stateRefs
-  | _ => []
-
-def problemRefs (q : ProblemD) : List Int := stateRefs q.init ++ q.goals.flatMap stateRefs
-
-/-- every `@ref` the writer emits, in document order -/
-def docRefs (d : DocD) : List Int :=
-  d.lanelets.flatMap laneletRefs ++ d.intersections.flatMap intersectionRefs ++ d.statics.flatMap (fun o => stateRefs o.init) ++
-  d.dynamics.flatMap (fun o => stateRefs o.init ++ predRefs o.pred) ++ d.problems.flatMap problemRefs
 
 /-! ### `refsOf` on the encoders -/
 
@@ -176,8 +139,8 @@ theorem refs_lanelet (p : Nat) (l : LaneletD) : refsOf "ref" (laneletNode p l) =
     intro tag pts lm
     simp only [boundNode, refs_el, refsOfList_append, refs_optLeaf, refsOfList_map, List.append_nil]
     exact flatMap_nil' _ _ (fun _ => refs_pt _ _ _)
-  have hs : refsOfList "ref" (optStopNodes p l.stop) = (match l.stop with | some s => stopRefs s | none => []).map istr := by
-    cases l.stop <;> simp [optStopNodes, refsOfList, refs_stopLine]
+  have hs : refsOfList "ref" (optStopNodes p l.stop) = (optStopRefs l.stop).map istr := by
+    cases l.stop <;> simp [optStopNodes, optStopRefs, refsOfList, refs_stopLine]
   simp only [laneletNode, refs_id, refsOfList_append, refsOfList_cons, refsOfList_nil, hb, refs_refs, refs_adj, hs,
     refs_enumLeaves, laneletRefs, List.map_append, List.append_nil, List.nil_append, List.append_assoc]
 
@@ -207,8 +170,8 @@ theorem refs_light (p : Nat) (l : LightD) : refsOf "ref" (lightNode p l) = [] :=
   simp only [lightNode, refs_id, refsOfList_append, hc, hp, refs_optLeaf, refs_optB, List.append_nil]
 
 theorem refs_incoming (i : IncomingD) : refsOf "ref" (incomingNode i) = (incomingRefs i).map istr := by
-  have hl : refsOfList "ref" (optRefNodes "isLeftOf" i.leftOf) = (match i.leftOf with | some j => [j] | none => []).map istr := by
-    cases i.leftOf <;> simp [optRefNodes, refsOfList, refs_ref]
+  have hl : refsOfList "ref" (optRefNodes "isLeftOf" i.leftOf) = (optInt i.leftOf).map istr := by
+    cases i.leftOf <;> simp [optRefNodes, optInt, refsOfList, refs_ref]
   simp only [incomingNode, refs_id, refsOfList_append, refs_refs, hl, incomingRefs, List.map_append, List.append_assoc]
 
 theorem refs_intersection (x : IntersectionD) : refsOf "ref" (intersectionNode x) = (intersectionRefs x).map istr := by
